@@ -11,5 +11,6 @@ func rulesC08(c *Ctx, r *Report) {
 	rulesSiblingRecurrence(c, r, false)
 	rulesTraceFollowsFill(c, r)
 	rulesLocalClamp(c, r)
+	rulesTraceStop(c, r)
 	rulesPureAlign(c, r)
 }
